@@ -138,32 +138,38 @@ func ruleC02R2(r *Run) {
 		name := fnName(fn)
 		// (a) send nil-error edge
 		sends := findCalls(fn, false, "/wire.ClientConn.SendUpstreamChunk")
-		okSend := false
-		for _, s := range sends {
-			if c, ok := s.(*ssa.Call); ok && guardedByNilErr(c, rm) {
-				okSend = true
-			}
-		}
-		r.Check(name+" remove after successful send", okSend, posOf(p, rm), name, fmt.Sprintf("%d send call(s) in the waiter; Remove must lie on the nil-error edge of the send", len(sends)))
-		// (b) comma-ok receive true edge
-		okRecv := false
-		allInstrs(fn, func(ins ssa.Instruction) {
-			u, ok := ins.(*ssa.UnOp)
-			if !ok || u.Op != token.ARROW || !u.CommaOk || u.Referrers() == nil {
-				return
-			}
-			for _, ref := range *u.Referrers() {
-				if ex, ok := ref.(*ssa.Extract); ok && ex.Index == 1 {
-					if condTrueDominates(fn, ex, rm) {
-						okRecv = true
-					}
+		// (the removal may sit in a helper of the waiter, settleChunk(chunk, result): then judged at its call sites)
+		okSend := p.liftToCallers(rm, func(f *ssa.Function, at ssa.Instruction) bool {
+			for _, s := range findCalls(f, false, "/wire.ClientConn.SendUpstreamChunk") {
+				if c, ok := s.(*ssa.Call); ok && guardedByNilErr(c, at) {
+					return true
 				}
 			}
-		})
+			return false
+		}, 0)
+		r.Check(name+" remove after successful send", okSend, posOf(p, rm), name, fmt.Sprintf("%d send call(s) in the waiter; Remove must lie on the nil-error edge of the send", len(sends)))
+		// (b) comma-ok receive true edge
+		okRecv := p.liftToCallers(rm, func(f *ssa.Function, at ssa.Instruction) bool {
+			found := false
+			allInstrs(f, func(ins ssa.Instruction) {
+				u, ok := ins.(*ssa.UnOp)
+				if !ok || u.Op != token.ARROW || !u.CommaOk || u.Referrers() == nil {
+					return
+				}
+				for _, ref := range *u.Referrers() {
+					if ex, ok := ref.(*ssa.Extract); ok && ex.Index == 1 {
+						if condTrueDominates(f, ex, at) {
+							found = true
+						}
+					}
+				}
+			})
+			return found
+		}, 0)
 		r.Check(name+" remove only after a received result", okRecv, posOf(p, rm), name, "Remove must be dominated by the ok==true edge of a comma-ok receive from the waiter channel (a closed channel means cancellation: keep the chunk)")
 		// keys
-		idL := p.Leaves(instrCall(rm).Args[1], provOpts{})
-		seqL := p.Leaves(instrCall(rm).Args[2], provOpts{})
+		idL := p.Leaves(instrCall(rm).Args[1], provOpts{ParamDepth: 1})
+		seqL := p.Leaves(instrCall(rm).Args[2], provOpts{ParamDepth: 1})
 		okKeys := hasLeaf(idL, "field:/iscp.Upstream.ID") && hasLeaf(seqL, "field:/message.StreamChunk.SequenceNumber")
 		r.Check(name+" remove keyed by own id and number", okKeys, posOf(p, rm), name, "Remove(id from ["+joinLeaves(idL)+"], seq from ["+joinLeaves(seqL)+"])")
 	}
@@ -335,7 +341,23 @@ func ruleC02R3(r *Run) {
 					tv := canonVal(c.Call.Value)
 					for _, d := range dones {
 						for _, rt := range ctxRoots(d) {
-							if canonVal(rt) == tv {
+							rv := canonVal(rt)
+							// a context the helper got as a parameter is, at the call, the argument handed in
+							if prm, isP := rv.(*ssa.Parameter); isP && prm.Parent() == fn && site != ssa.Instruction(sel) {
+								if cc := instrCall(site); cc != nil {
+									for i, q := range fn.Params {
+										if q == prm && i < len(cc.Args) {
+											rv = canonVal(cc.Args[i])
+										}
+									}
+								}
+							}
+							// the same field of the same receiver read in helper and caller (u.ctx)
+							sameField := false
+							if pa, pb := pathOf(rt), pathOf(c.Call.Value); pa != nil && pb != nil && pa.Last() != nil && pa.Last() == pb.Last() {
+								sameField = true
+							}
+							if rv == tv || sameField {
 								okSite = true
 								tested = append(tested, pathOf(c.Call.Value).String())
 							}
